@@ -307,11 +307,12 @@ pub struct SkipAll {
 /// Containers with nothing in them (empty struct / tuple struct / struct variant / tuple variant,
 /// a struct or struct variant all of whose fields are skipped), alone and followed by a sibling
 /// inside an enclosing tuple (so that a missing closing bracket shows).
-pub fn ser_shape_empty(nd: &mut Nd) {
-    let a = if nd.bool() { Some(nd.u8()) } else { None };
-    let b = if nd.bool() { Some(nd.bool()) } else { None };
+pub fn ser_shape_empty<const CASE: usize>(nd: &mut Nd) {
+    let av = nd.u8();
+    let bv = nd.bool();
     let tail = nd.bool();
-    match nd.below(6) {
+    // which optional fields are present is fixed by the instance (concrete offsets, R1)
+    match CASE {
         0 => {
             diff::<(Empty0, bool), 12>(nd, &(Empty0 {}, tail));
         }
@@ -325,13 +326,19 @@ pub fn ser_shape_empty(nd: &mut Nd) {
             diff::<(E0, bool), 19>(nd, &(E0::T0(), tail));
         }
         4 => {
-            diff::<(E0, bool), 40>(nd, &(E0::Opt { a, b }, tail));
+            diff::<(E0, bool), 20>(nd, &(E0::Opt { a: None, b: None }, tail));
+        }
+        5 => {
+            diff::<(E0, bool), 28>(nd, &(E0::Opt { a: Some(av), b: None }, tail));
+        }
+        6 => {
+            diff::<(SkipAll, bool), 12>(nd, &(SkipAll { a: None, b: None }, tail));
         }
         _ => {
-            diff::<(SkipAll, bool), 32>(nd, &(SkipAll { a, b }, tail));
+            diff::<(SkipAll, bool), 22>(nd, &(SkipAll { a: None, b: Some(bv) }, tail));
         }
     }
-    cover!(nd, a.is_none() && b.is_none(), "every optional field skipped");
+    cover!(nd, tail, "sibling after the container");
 }
 
 /// Sequences of symbolic length 0..=2 (slice of `u8` → `[1,2]`).
@@ -435,10 +442,15 @@ pub struct KeyNewtype<'a>(pub &'a str);
 /// Key kinds that must be accepted and quoted as serde_json does: `&str`, unit variant, newtype
 /// struct around a string.
 pub fn ser_key_accepted(nd: &mut Nd) {
+    ser_key_accepted_k::<3>(nd)
+}
+
+/// The same with the key kind fixed by the instance (K = 3: symbolic choice).
+pub fn ser_key_accepted_k<const K: usize>(nd: &mut Nd) {
     let b = [nd.ascii()];
     let s = crate::nd::str_of(&b);
     let hint = nd.bool();
-    match nd.below(3) {
+    match if K < 3 { K } else { nd.below(3) } {
         0 => {
             diff::<_, 16>(nd, &Map1(s, 1u8, hint));
         }
